@@ -95,15 +95,24 @@ Print Assumptions C08_crlf_cut_divides_delimiter_ok.
    with the same names, filenames, media types and byte-exact contents, in
    order, and consumes the input; with or without the final CRLF, with the
    Content-Length absent or correct, for every good reader.
-   _partial: the full statement has no hypothesis about the headers.  Here
-   [part_ok] contains [headers_decode]: the header codec (FeedParser subset +
-   parse_header) gives back name, filename and media type of the part --
-   decidable for a given part (see C08_hypotheses_example), the business of
-   C18 in general, and false for a name ending in a backslash in front of a
-   filename parameter (C08_headers_decode_backslash_refuted).  Missing
-   besides: parts that are themselves multipart/* or
-   application/x-www-form-urlencoded (not modelled), text values are
-   compared as bytes (C08_text_exact_ascii covers ASCII fields). *)
+   [part_wf b p] (model/Multipart.v) has no hypothesis about the header codec
+   any more (it used to be the hypothesis [headers_decode], false for a name
+   ending in a backslash in front of a filename parameter until _parseparam
+   was repaired; C08_headers_decode below discharges it).  What it asks of a
+   part is what an encoder can write into header lines at all:
+     name and filename: code points UTF-8 can encode (no lone surrogates)
+       and no CR / LF (either ends the header line; RFC 7578 encoders
+       percent-encode them) -- everything else is allowed: blanks, quotes,
+       semicolons, backslashes anywhere, controls, non-ASCII, the empty name;
+     media type, when given: such header text without ';' (the property
+       compares the media type, not its parameters) and without blanks at
+       its ends, and not multipart/* or application/x-www-form-urlencoded;
+     content: no line of it is a delimiter line.
+   _partial, because the full statement also covers what is missing here:
+   parts that are themselves multipart/* or urlencoded (not modelled), media
+   types written with parameters, and text values, which are compared as
+   bytes (C08_text_exact_ascii covers ASCII fields; known finding
+   text-field-multibyte-at-64k-cut). *)
 Theorem C08_multipart_roundtrip_partial :
   forall (St : Type) (rl : Z -> St -> bytes * St) (rem : St -> bytes)
          (L : Z -> Prop) (P : St -> Prop),
@@ -113,15 +122,29 @@ Theorem C08_multipart_roundtrip_partial :
     L maxline -> L (-1) ->
     boundary_ok b = true -> len b + 7 <= maxline ->
     ctype_names ctv b ->
-    Forall (part_ok b) (p :: ps) ->
+    Forall (part_wf b) (p :: ps) ->
     P s -> rem s = encode b (p :: ps) final ->
     (clen < 0 \/ clen = len (rem s)) ->
     len (rem s) < Z.of_nat fuel ->
     exists fields s',
       parse St rl maxline fuel (Some ctv) clen s = Ok (fields, s') /\
       Forall2 field_matches (p :: ps) fields /\ rem s' = [].
-Proof. exact multipart_roundtrip. Qed.
+Proof. exact multipart_roundtrip_wf. Qed.
 Print Assumptions C08_multipart_roundtrip_partial.
+
+(* the header codec (UTF-8, the FeedParser subset, parse_header with the
+   scanner of _parseparam, unquoting) gives back name, filename and media
+   type of EVERY such part: for all names and filenames *)
+Theorem C08_headers_decode :
+  forall b p,
+    b <> [] -> hdr_text (p_name p) = true ->
+    match p_filename p with Some f => hdr_text f = true | None => True end ->
+    match p_ctype p with Some t => ctype_ok t = true | None => True end ->
+    exists hs,
+      part_headers (utf8_decode (utf8_encode (part_header_text p))) = Some hs /\
+      part_meta hs b = (Some (p_name p), p_filename p, expected_type p).
+Proof. exact headers_decode_meta. Qed.
+Print Assumptions C08_headers_decode.
 
 (* (3) Two good readers give the same parts for an encoded body (same block
    of hypotheses as above) *)
@@ -131,7 +154,7 @@ Theorem C08_reader_independent_partial :
   forall maxline b p ps final ctv clen s1 s2 fuel,
     L1 maxline -> L1 (-1) -> L2 maxline -> L2 (-1) ->
     boundary_ok b = true -> len b + 7 <= maxline ->
-    ctype_names ctv b -> Forall (part_ok b) (p :: ps) ->
+    ctype_names ctv b -> Forall (part_wf b) (p :: ps) ->
     P1 s1 -> P2 s2 ->
     rem1 s1 = encode b (p :: ps) final -> rem2 s2 = encode b (p :: ps) final ->
     (clen < 0 \/ clen = len (encode b (p :: ps) final)) ->
@@ -140,7 +163,7 @@ Theorem C08_reader_independent_partial :
       parse St1 rl1 maxline fuel (Some ctv) clen s1 = Ok (fs1, t1) /\
       parse St2 rl2 maxline fuel (Some ctv) clen s2 = Ok (fs2, t2) /\
       Forall2 same_field fs1 fs2.
-Proof. exact reader_independent. Qed.
+Proof. exact reader_independent_wf. Qed.
 Print Assumptions C08_reader_independent_partial.
 
 (* a text field whose bytes are ASCII is decoded exactly, however the
@@ -151,13 +174,23 @@ Proof. exact text_exact_ascii. Qed.
 Print Assumptions C08_text_exact_ascii.
 
 (* the hypotheses are satisfiable by a non-trivial input (names with quotes,
-   semicolon, backslash, non-ASCII; a file whose content is full of CR, LF,
-   NUL, 0xFF and near copies of the delimiter; an empty field) *)
+   semicolon, backslash, non-ASCII; a name and a filename ending in a
+   backslash; a file whose content is full of CR, LF, NUL, 0xFF and near
+   copies of the delimiter; an empty field) *)
 Theorem C08_hypotheses_example :
   boundary_ok ex_b = true /\ ctype_names ex_ctv ex_b /\
-  Forall (part_ok ex_b) ex_parts.
+  Forall (part_wf ex_b) ex_parts.
 Proof. exact ex_hypotheses. Qed.
 Print Assumptions C08_hypotheses_example.
+
+(* the witness of the former finding param-backslash-before-next-param: the
+   headers of a part named trail\ with a filename decode to that name and
+   that filename *)
+Theorem C08_headers_decode_backslash_witness :
+  headers_decode [98] (mkpart [116; 114; 97; 105; 108; 92]
+                              (Some [102; 46; 116; 120; 116]) None []).
+Proof. exact headers_decode_backslash_witness. Qed.
+Print Assumptions C08_headers_decode_backslash_witness.
 
 (* ---- where the faithful model does not round-trip *)
 
@@ -182,9 +215,3 @@ Theorem C08_reader_independent_any_input_refuted :
     parse bytes crlf_line 65536 (fuel_for body) (Some ctv) (-1) body.
 Proof. exact reader_independent_any_input_refuted. Qed.
 Print Assumptions C08_reader_independent_any_input_refuted.
-
-(* the header hypothesis is needed *)
-Theorem C08_headers_decode_backslash_refuted :
-  exists b p, ~ In 10 (p_name p) /\ ~ headers_decode b p.
-Proof. exact headers_decode_backslash_refuted. Qed.
-Print Assumptions C08_headers_decode_backslash_refuted.
